@@ -95,6 +95,33 @@ Definition rht_purge (h : erht) (id : ticket) : option erht :=
       Some (mkERHT bk (ndel (nodes h) id))
   end.
 
+(* api/converter/from_bytes.go fromJSONObject, one member: the decoded element (with its own
+   movedAt/removedAt) is put back with SetWithExecutedAt(key, elem, PositionedAt(elem)); a tombstone
+   the element already carried is restored afterwards (SetRemovedAt) *)
+Definition decode_step (h : erht) (n : rnode) : erht :=
+  let t := rn_positioned n in
+  let k := rn_key n in
+  let won := mkRN k (rn_id n) (rn_val n) (Some t) (rn_removed n) in
+  match linked h k with
+  | None => mkERHT (kset (by_key h) k (rn_id n)) (nset (nodes h) won)
+  | Some old =>
+      if tafter t (rn_positioned old) then
+        let old' := match rn_removed old with
+                    | None => fst (rn_remove old t)
+                    | Some _ => old
+                    end in
+        mkERHT (kset (by_key h) k (rn_id n)) (nset (nset (nodes h) old') won)
+      else
+        let n' := match rn_removed n with
+                  | Some _ => n
+                  | None => fst (rn_remove n (rn_positioned old))
+                  end in
+        mkERHT (by_key h) (nset (nodes h) n')
+  end.
+
+(* BytesToObject over the members in the order the encoder listed them (map order: arbitrary) *)
+Definition rht_decode (members : list rnode) : erht := fold_left decode_step members empty_erht.
+
 (* Elements()/Marshal(): live linked members, ascending key *)
 Definition rht_visible (h : erht) : list (N * Z) :=
   flat_map (fun kt => match nget (nodes h) (snd kt) with
